@@ -326,6 +326,7 @@ func (x *Exec) execBlock(st *State, b *ssa.BasicBlock, from *ssa.BasicBlock) {
 					}
 					st2 := st.clone()
 					st2.assume(c)
+					x.leaveLoops(st2, b, tb)
 					x.execBlock(st2, tb, b)
 					st.assume(mkNot(c))
 					next = fb
@@ -350,6 +351,7 @@ func (x *Exec) execBlock(st *State, b *ssa.BasicBlock, from *ssa.BasicBlock) {
 		if next == nil {
 			return
 		}
+		x.leaveLoops(st, b, next)
 		from, b = b, next
 	}
 }
@@ -431,6 +433,35 @@ func (x *Exec) evalInvariants(st *State, li *LoopInfo, kind string) {
 			label = fmt.Sprint(k)
 		}
 		x.oblige(st, kind, x.loopLabel(li)+"."+label, t, li.Pos, c.Expr)
+	}
+}
+
+func (x *Exec) leaveLoops(st *State, b, next *ssa.BasicBlock) {
+	if st.dead {
+		return
+	}
+	for _, li := range x.loops {
+		if li.Spec != nil && len(li.Spec.Exits) > 0 && li.Body[b.Index] && !li.Body[next.Index] && st.inLoop[li.Header.Index] {
+			x.evalExits(st, li)
+		}
+	}
+}
+
+// evalExits: `loop K exit E` - E holds whenever control leaves the loop for the statement behind it (not on
+// return or panic inside the loop). Names are resolved at the loop statement.
+func (x *Exec) evalExits(st *State, li *LoopInfo) {
+	for k, c := range li.Spec.Exits {
+		env := x.newEnv(st)
+		env.loop = li
+		t, err := env.evalBool(c.Expr)
+		if err != nil {
+			panic(fmt.Sprintf("%s:%d: loop exit: %v", c.File, c.Line, err))
+		}
+		label := c.Label
+		if label == "" {
+			label = fmt.Sprint(k)
+		}
+		x.oblige(st, "loop-exit", x.loopLabel(li)+"."+label, t, li.Pos, c.Expr)
 	}
 }
 
